@@ -164,6 +164,22 @@ fn dump_tree(c: &Command) -> String {
         s.push_str(&format!(" {}", hex(a.as_bytes())));
     }
     s.push(')');
+    // flag-subcommand spellings: `--long-flag` (name and all aliases), `-s` (flag and all aliases)
+    s.push_str(" (lf");
+    if let Some(l) = c.get_long_flag() {
+        s.push_str(&format!(" {}", hex(l.as_bytes())));
+    }
+    for l in c.get_all_long_flag_aliases() {
+        s.push_str(&format!(" {}", hex(l.as_bytes())));
+    }
+    s.push_str(") (sf");
+    if let Some(ch) = c.get_short_flag() {
+        s.push_str(&format!(" {}", ch as u32));
+    }
+    for ch in c.get_all_short_flag_aliases() {
+        s.push_str(&format!(" {}", ch as u32));
+    }
+    s.push(')');
     for a in c.get_arguments() {
         s.push_str(&format!(" (a {} {}", hex(a.get_id().as_str().as_bytes()), if a.is_hide_set() { "h" } else { "v" }));
         s.push_str(" (l");
@@ -209,11 +225,16 @@ fn dump_tree(c: &Command) -> String {
         }
         let r = a.get_num_args();
         s.push_str(&format!(
-            ") (n {} {}) (i {}))",
+            ") (n {} {}) (i {})",
             r.map(|r| r.min_values()).unwrap_or(0),
             r.map(|r| r.max_values()).unwrap_or(0),
             a.get_index().unwrap_or(0)
         ));
+        // the value terminator itself (the oracle reads lines that contain it)
+        if let Some(t) = a.get_value_terminator() {
+            s.push_str(&format!(" (t {})", hex(t.as_str().as_bytes())));
+        }
+        s.push(')');
     }
     for sc in c.get_subcommands() {
         s.push(' ');
